@@ -576,6 +576,38 @@ func VerifC07_Pairs() {
 	c07Check(n)
 }
 
+// Three operators: chains and mixed nestings at depth 3 (a child that needs
+// parentheses below a grandchild that does not, associativity of equal levels
+// across two steps, unary operators between binary ones).
+func VerifC07_Triples() {
+	bin, un := c07Ops()
+	if !vrt.Thorough() {
+		bin, un = []int{0, 2, 4, 9, 11}, []int{0, 1, 5, 10}
+	}
+	a, b, c, d := ast.Long(7), ast.Principal(), ast.Long(-5), ast.Context().Access("k")
+	pickB := func(l string) int { return bin[vrt.Choice(l, len(bin))] }
+	pickU := func(l string) int { return un[vrt.Choice(l, len(un))] }
+	var n ast.Node
+	switch vrt.Choice("shape", 7) {
+	case 0:
+		n = c07Bin(pickB("top"), c07Bin(pickB("mid"), c07Bin(pickB("low"), a, b), c), d)
+	case 1:
+		n = c07Bin(pickB("top"), a, c07Bin(pickB("mid"), b, c07Bin(pickB("low"), c, d)))
+	case 2:
+		n = c07Bin(pickB("top"), c07Bin(pickB("mid"), a, b), c07Bin(pickB("low"), c, d))
+	case 3:
+		n = c07Bin(pickB("top"), a, c07Bin(pickB("mid"), c07Bin(pickB("low"), b, c), d))
+	case 4:
+		n = c07Bin(pickB("top"), c07Un(pickU("mid"), c07Bin(pickB("low"), a, b)), c)
+	case 5:
+		n = c07Un(pickU("top"), c07Bin(pickB("mid"), c07Un(pickU("low"), a), b))
+	case 6:
+		n = c07Bin(pickB("top"), c07Bin(pickB("mid"), a, c07Un(pickU("low"), b)), c)
+	}
+	vrt.Cover("C07.triples")
+	c07Check(n)
+}
+
 // Layout: whitespace and comments between any two tokens do not change the tree.
 func VerifC07_Layout() {
 	n := ast.Principal().Access("attr").Equal(ast.Long(-5)).And(ast.Not(ast.Context().Has("attr")))
